@@ -352,7 +352,17 @@ def check_sweep(ctx):
     ctx.check(bool(clr), inst, "PIN", b.path, "a referenced entry has its bit cleared when it is passed over", None)
 
 
+def check_expiry_first(ctx):
+    """transparency includes expiry: with the cache off an expired key is refused by the lazy check before any tier is asked, so
+    with the cache on the cache tier has to sit behind the same test (a hit for an expired, not yet retired generation would be
+    served otherwise). Same rule as C11.lazy: every value tier of resolve_record_value, the cache lookup included, is reached
+    only through the not-expired edge."""
+    from rules import C11
+    C11.check_lazy(ctx, "C16.expiry-first")
+
+
 def check(ctx):
+    check_expiry_first(ctx)
     check_watermarks(ctx)
     check_blocking_locks(ctx)
     check_sweep(ctx)
